@@ -580,8 +580,11 @@ def run_tcpclient(ctx, case):
             vtime.run(scenario)
     finally:
         tcpclient_mod.socket, tcpclient_mod.IOStream = saved
-        with LogCapture():
-            gc.collect()  # GC-time "exception was never retrieved" reports are timing dependent: swallow them here
+        if world.ctor_raised:
+            # the open unbound-`stream` finding orphans a failed Future; collect it now so that its GC-time
+            # "exception was never retrieved" report cannot surface inside a later case
+            with LogCapture():
+                gc.collect()
     base = {"addrs": case["addrs"], "timeout": case["timeout"], "source_ip": case["source_ip"], "source_port": case["source_port"],
             "resolver": case["resolver"], "ops": case["ops"]}
     for clause, detail, sig in fails:
